@@ -1118,6 +1118,7 @@ int libxmp_mixer_on(struct context_data *ctx, int rate, int format, int c4rate)
 	/* s->numvoc = SMIX_NUMVOC; */
 	s->dtright = s->dtleft = 0;
 	s->bidir_adjust = 0;
+	s->ticksize = 0;
 
 	return 0;
 
